@@ -67,6 +67,21 @@ def run(chk):
             diff.append(n)
     extra = [n for n, f in prog2.funcs.items() if n not in prog.funcs and f.get("pkg", "").startswith("filippo.io/edwards25519")]
     chk.fact("SSA of every other function (%d) is identical under default and purego" % (len(ours) - 2), not diff and not extra, [], "configuration", detail=str((diff + extra)[:5]), seconds=time.time() - t0)
+    # a 32-bit target selects the portable code as well (no purego tag needed) but with 32-bit int/uint: the SSA of every
+    # function must not depend on that (e.g. through math.MaxUint, bits.UintSize, constants typed uint)
+    t0 = time.time()
+    try:
+        prog3 = ir.load(goarch="386")
+        diff3 = [n for n in ours if n not in (K.F + "feMul", K.F + "feSquare") and (n not in prog3.funcs or strip(prog2.funcs[n]) != strip(prog3.funcs[n]))]
+        ob3 = chk.soft("SSA of every function is identical for GOARCH=386 (32-bit int) and the purego build on amd64: no platform-width dependent constants or code", not diff3, [], "configuration", detail=str(diff3[:5]))
+        ob3.seconds = time.time() - t0
+        if diff3:
+            hit = config_battery(chk.seed, goarch="386")
+            if hit:
+                ob3.verdict = "violated"
+                chk.violation("GOARCH=386", hit["what"], hit)
+    except Exception as e:
+        chk.note_inconclusive("GOARCH=386 configuration could not be loaded: %r" % (e,))
     # purego feMul/feSquare are the portable routines (checked by executing the wrappers)
     base2 = K.Base(prog2)
     chk.extra["config_purego"] = {"field_mul": "portable Go (wrappers call feMulGeneric/feSquareGeneric)"}
@@ -76,7 +91,7 @@ def run(chk):
     chk.samples = [o.j() for o in chk.obs if "identical" in o.name][:5]
 
 
-def config_battery(seed, n=40):
+def config_battery(seed, n=40, goarch=""):
     """native differential battery = the statement of C20 itself on concrete inputs: every multiplication-based public
     operation of the field package, in every aliasing pattern of receiver and operands, gives limb-identical results
     in the default (assembly) and purego builds and agrees with the big-integer product; plus feMul vs feMulGeneric /
@@ -112,12 +127,12 @@ def config_battery(seed, n=40):
             add("SqrtRatio", ["v", "a", "a"], {"v": J, "a": A})
             add("SqrtRatio", ["a", "a", "b"], {"a": A, "b": Bv})
     r1 = native.run_ops("field", ops)
-    r2 = native.run_ops("field", ops, tags="purego")
+    r2 = native.run_ops("field", ops, tags="purego") if not goarch else native.run_ops("field", ops, goarch=goarch)
     for (op, args, init, want), x, y in zip(meta, r1, r2):
         if "panic" in x or "panic" in y:
             return dict(what="%s%s panics: %s" % (op, args, x.get("panic") or y.get("panic")), op=op, args=args, init=init)
         if x["slots"] != y["slots"] or x.get("int") != y.get("int"):
-            return dict(what="%s(%s): default and purego builds disagree: %s vs %s" % (op, ",".join(args), x["slots"].get(args[0]), y["slots"].get(args[0])), op=op, args=args, init=init)
+            return dict(what="%s(%s): default and %s builds disagree: %s vs %s" % (op, ",".join(args), ("GOARCH=" + goarch) if goarch else "purego", x["slots"].get(args[0]), y["slots"].get(args[0])), op=op, args=args, init=init)
         if want is not None:
             got = ref.fe_val(ref.parse_limbs(x["slots"][args[0]])) % ref.P
             if got != want % ref.P:
